@@ -36,7 +36,7 @@ Base == Piece(<< Component("User", "Card", <<>>, <<Scalar("name"), Scalar("age")
                  Entrypoint("Query", "Home") >>,
               << "src/user/card.ts", "src/home.ts", "src/home.ts" >>)
 
-FeatureNames == << "nobabel", "sameName", "pet", "loadable", "mutation", "dupEp", "dupEpWs", "xField", "xEp", "xParse", "xParse2",
+FeatureNames == << "nobabel", "sameName", "refetch", "pet", "loadable", "mutation", "dupEp", "dupEpWs", "xField", "xEp", "xParse", "xParse2",
                    "xDup", "xLazy", "xType", "xDupSame" >>
 
 Feature(f) ==
@@ -44,6 +44,12 @@ Feature(f) ==
          Piece(<< >>, << >>)
     [] f = "sameName" ->  \* the name of a client field of another type (User.Card) on Pet, never selected
          Piece(<< Field("Pet", "Card", <<>>, <<Scalar("nickname")>>) >>, << "src/pet/card.ts" >>)
+    [] f = "refetch" ->   \* several imperatively loaded fields under one entrypoint (refetch query indexes, nested refetch queries)
+         Piece(<< Field("Pet", "Tag2", <<>>, <<Scalar("nickname"), Scalar("__refetch"), Scalar("feed")>>),
+                  Field("Query", "Refetchy", <<>>, << Linked("pets", <<Scalar("Tag2")>>),
+                                                     Linked("topPet", <<Scalar("Tag2"), Scalar("refetchPet")>>) >>),
+                  Entrypoint("Query", "Refetchy") >>,
+               << "src/pet/tag2.ts", "src/refetchy.ts", "src/refetchy.ts" >>)
     [] f = "pet" ->
          Piece(<< Field("Pet", "Tag", <<>>, <<Scalar("nickname"), Scalar("kind")>>),
                   Component("Query", "PetList", <<>>, << Linked("pets", <<Scalar("Tag")>>) >>),
